@@ -583,6 +583,8 @@ pub struct Stats {
     pub trace: Vec<String>,
     /// number of oracle clauses evaluated for the monitored property
     pub oracle_evals: u64,
+    /// digest of every library result and token byte string of the run (determinism proof)
+    pub digest: u64,
 }
 
 impl Stats {
@@ -761,6 +763,7 @@ impl<'a> Run<'a> {
 
     fn push_slot(&mut self, slot: Slot, op: &str) {
         let idx = self.slots.len();
+        libeval::digest_mix(&slot.bytes);
         self.slots.push(slot);
         self.slot_of_event.insert(self.cur, idx);
         self.stats.trace.push(format!("{op}:ok"));
@@ -2131,7 +2134,17 @@ impl<'a> Run<'a> {
 }
 
 pub fn run_scenario(scn: &Scenario, mon: &Monitors) -> (Vec<Violation>, Stats, Vec<String>) {
+    let _ = libeval::digest_take();
     let mut run = Run::new(scn, mon);
     run.execute();
+    for v in &run.violations {
+        libeval::digest_mix(format!("{v:?}").as_bytes());
+    }
+    for h in &run.harness {
+        libeval::digest_mix(h.as_bytes());
+    }
+    libeval::digest_mix(run.stats.trace.join("|").as_bytes());
+    libeval::digest_mix(format!("{:?}", run.stats.counters).as_bytes());
+    run.stats.digest = libeval::digest_take();
     (run.violations, run.stats, run.harness)
 }
